@@ -256,7 +256,7 @@ Ltac o_step :=
   | |- only _ (fail _) => exact I
   | |- only _ (ret _) => exact I
   | |- only _ (lift _) => exact I
-  | |- only _ (inboxes_from_db _) => apply q_inboxes_from_db; o_side
+  | |- only _ (inboxes_from_db _) => apply q_inboxes_from_db with (dbok := fun _ => true); o_side
   | |- only _ (resolve_actors _ _) => apply q_resolve_actors; o_side
   | |- only _ max_delivery_depth => apply q_max_delivery_depth; o_side
   | |- only _ (bind _ _) => apply quiet_bind; [|intros]
